@@ -53,6 +53,41 @@ fn main() {
             }
             0
         }
+        Some("determinism") if args.len() >= 3 => {
+            // the proof obligation of DESIGN.md section 5: the same plans in different process
+            // layouts must give the same traces
+            let n: u64 = args[2].parse().expect("n");
+            let names: Vec<String> = if args[1] == "all" {
+                scenarios::all().iter().map(|s| s.name().to_string()).collect()
+            } else {
+                vec![args[1].clone()]
+            };
+            let mut bad = 0;
+            for name in names {
+                let scn = scenarios::by_name(&name).expect("scenario");
+                let mut maps = Vec::new();
+                for jobs in [1usize, 5, 16] {
+                    let b = driver::run_batch(scn, seed, scenario::Tier::Quick, 0, n, jobs, None);
+                    maps.push(b.hashes.iter().cloned().collect::<std::collections::BTreeMap<u64, u64>>());
+                }
+                let mut mismatch = 0;
+                for (i, h) in &maps[0] {
+                    if maps[1].get(i) != Some(h) || maps[2].get(i) != Some(h) {
+                        mismatch += 1;
+                        if mismatch <= 3 {
+                            println!("  {} index {}: {:016x} / {:?} / {:?}", name, i, h, maps[1].get(i), maps[2].get(i));
+                        }
+                    }
+                }
+                println!("determinism {}: {} plans x 3 layouts, {} mismatches", name, maps[0].len(), mismatch);
+                bad += mismatch;
+            }
+            if bad > 0 {
+                2
+            } else {
+                0
+            }
+        }
         Some("scenarios") => {
             for s in scenarios::all() {
                 println!("{}", s.name());
